@@ -6,7 +6,10 @@ use crate::push::stack::PushStack;
 use crate::push::state::PushState;
 use crate::push::state::*;
 use std::cmp;
+#[cfg(not(feature = "verif"))]
 use std::collections::HashMap;
+#[cfg(feature = "verif")]
+use crate::push::verif_seam::DetMap as HashMap;
 
 /// For explicit code manipulation and execution. May also be used as a general list data type.
 /// This type must always be present, as the top level interpreter will push any code to be
